@@ -48,6 +48,9 @@ CHECKS = {
     "C11": (MC, "4.C11", "explicit-state simulation relation between each trace and its scaled twins (size scaling, area/time trade, single-factor step-0 twins); bit-exact for power-of-two factors",
             "For every run in the lattice the twin scaled by 2^j is bit-identical in all intensive series and exactly 2^j times in masses and heats (also in outcome: raises iff the base raises); non-power-of-two factors agree within rounding-aware tolerances.",
             "find_best_fit memoised; lattice, not continuum"),
+    "C06": (MC, "4.C06", "explicit-state simulation relation between every run and its relabelled twin on four layers (thermodynamics, solver, ideal curves, ideal process traces state by state); known-finding attribution for UNIQUAC by K1 signature + symmetric-gamma_2 stub",
+            "With NRTL every output of the lattice equals its relabelled twin's with roles exchanged (activity coefficients 1e-11, fluxes/traces 2e-7..2e-6 per step), separation factors and selectivities invert; with UNIQUAC the only deviations are those the documented typo K1 produces (KNOWN-FINDING), anything that persists under the symmetric stub is a violation.",
+            "twins run at precision 1e-10; back-flow states and permeate fractions that round to 0/1 are not judged"),
 }
 def main():
     checks = []
